@@ -465,10 +465,14 @@ where
         if collected[..] != *rest {
             return Err(ctx(&format!("collect() yields {:?}, expected {:?}", collected, rest)));
         }
-        let skipped: Vec<I::Item> = advanced().skip(1).collect();
-        let skipped: Vec<X> = skipped.into_iter().map(&tup).collect();
-        if skipped[..] != rest[1.min(rest.len())..] {
-            return Err(ctx(&format!("skip(1) yields {:?}", skipped)));
+        // (consumers that would call next() again after a None are only used where the Iterator
+        // contract defines the outcome: on a rest that is long enough)
+        if !rest.is_empty() {
+            let skipped: Vec<I::Item> = advanced().skip(1).collect();
+            let skipped: Vec<X> = skipped.into_iter().map(&tup).collect();
+            if skipped[..] != rest[1..] {
+                return Err(ctx(&format!("skip(1) yields {:?}", skipped)));
+            }
         }
         let stepped: Vec<I::Item> = advanced().step_by(2).collect();
         let stepped: Vec<X> = stepped.into_iter().map(&tup).collect();
@@ -476,12 +480,14 @@ where
         if stepped != want_stepped {
             return Err(ctx(&format!("step_by(2) yields {:?}, expected {:?}", stepped, want_stepped)));
         }
-        let mut it = advanced();
-        let head: Vec<I::Item> = it.by_ref().take(2).collect();
-        let tail: Vec<I::Item> = it.collect();
-        let both: Vec<X> = head.into_iter().chain(tail).map(&tup).collect();
-        if both[..] != *rest {
-            return Err(ctx(&format!("by_ref().take(2) then the rest yields {:?}, expected {:?}", both, rest)));
+        if rest.len() >= 2 {
+            let mut it = advanced();
+            let head: Vec<I::Item> = it.by_ref().take(2).collect();
+            let tail: Vec<I::Item> = it.collect();
+            let both: Vec<X> = head.into_iter().chain(tail).map(&tup).collect();
+            if both[..] != *rest {
+                return Err(ctx(&format!("by_ref().take(2) then the rest yields {:?}, expected {:?}", both, rest)));
+            }
         }
         let mut pk = advanced().peekable();
         let _ = pk.peek();
@@ -499,13 +505,13 @@ where
         if pos.is_some() {
             return Err(ctx("position(never) found something"));
         }
-        // an exhausted iterator stays exhausted for the consumers
+        // the walk ends where the reference ends
         let mut it = advanced();
         for _ in 0..rest.len() {
             it.next();
         }
         if it.next().is_some() {
-            return Err(ctx("next() yields an item after the walk ended"));
+            return Err(ctx("next() yields more items than the reference expansion holds"));
         }
     }
     Ok(())
